@@ -248,7 +248,7 @@ func runProperty(w *World, prop, tier, vdir string, start time.Time, writeBaseli
 	trivial := 0
 	isKnown := func(name string) *knownFinding {
 		for i := range known {
-			if known[i].Kind == "known" && known[i].Property == prop && known[i].Obligation == name {
+			if known[i].Kind == "known" && known[i].Property == prop && (known[i].Obligation == name || strings.HasPrefix(name, known[i].Obligation+"[")) {
 				return &known[i]
 			}
 		}
@@ -305,7 +305,16 @@ func runProperty(w *World, prop, tier, vdir string, start time.Time, writeBaseli
 				continue
 			}
 			if kf := isKnown(o.Name); kf != nil {
-				knownHits = append(knownHits, fmt.Sprintf("KNOWN-FINDING: property=%s %s %s", prop, o.Name, kf.Text))
+				line := fmt.Sprintf("KNOWN-FINDING: property=%s %s %s", prop, kf.Obligation, kf.Text)
+				dup := false
+				for _, h := range knownHits {
+					if h == line {
+						dup = true
+					}
+				}
+				if !dup {
+					knownHits = append(knownHits, line)
+				}
 				continue
 			}
 			if bst == "undecided" || bst == "fails" || (bst == "" && bp != nil && o.Status != "sat" && !contractKind(o.Kind)) {
